@@ -159,21 +159,15 @@ var apis = []api{
 		if len(l.SpanningFragments) > 0 {
 			v.groups = append(v.groups, l.SpanningFragments)
 		}
+		v.hasS, v.strs = true, []string{l.GetText()}
+		v.facets = []string{"Columns[].Fragments+SpanningFragments", "ColumnLayout.GetText"}
 		return v
-	}},
-	{name: "Column.GetText", family: "column", part: 1, run1: func(fr []text.TextFragment) view {
-		l := layout.NewColumnDetector().Detect(fr, pageW, pageH)
-		return view{hasS: true, strs: []string{l.GetText()}}
 	}},
 	{name: "Line.Detect", family: "line", part: 1, run1: func(fr []text.TextFragment) view {
 		l := layout.NewLineDetector().Detect(fr, pageW, pageH)
 		return view{hasG: true, groups: lineGroups(l.Lines), hasS: true, strs: lineTexts(l.Lines),
 			moreGroups: [][][]text.TextFragment{{l.GetAllFragments()}}, moreStrs: [][]string{{l.GetText()}},
 			facets: []string{"Line.Fragments", "LineLayout.GetAllFragments", "Line.Text", "LineLayout.GetText"}}
-	}},
-	{name: "Line.GetText", family: "line", part: 1, run1: func(fr []text.TextFragment) view {
-		l := layout.NewLineDetector().Detect(fr, pageW, pageH)
-		return view{hasS: true, strs: []string{l.GetText()}}
 	}},
 	{name: "Paragraph.FromFragments", paras: true, family: "line", part: 1, run1: func(fr []text.TextFragment) view {
 		l := layout.NewParagraphDetector().DetectFromFragments(fr, pageW, pageH)
